@@ -234,6 +234,7 @@ func cmdRun(args []string) int {
 	agg := newAggregate(*prop, *tier, *seed)
 	var found []foundItem
 	baseDigests := map[int][]uint64{} // batch start -> digests
+	var firstBatch *WorkerOut
 	infra := 0
 	for d := range results {
 		if d.err != nil {
@@ -242,6 +243,9 @@ func cmdRun(args []string) int {
 			continue
 		}
 		agg.add(d.w)
+		if d.from == 0 {
+			firstBatch = d.w
+		}
 		if *prop == "C17" && len(baseDigests) < plan.cross {
 			baseDigests[d.from] = d.w.Digests
 		}
@@ -315,6 +319,24 @@ func cmdRun(args []string) int {
 		cwg.Wait()
 		if infra > 0 {
 			return 2
+		}
+	}
+
+	// ---- replay proof on a sample: the first batch again, in another process
+	// and environment, must give the same event logs and verdicts ----
+	if *prop != "C17" && firstBatch != nil {
+		if w, err := c.runBatch(envVariants[2], 0, len(firstBatch.Digests)); err == nil {
+			same := len(w.Digests) == len(firstBatch.Digests)
+			for i := range firstBatch.Digests {
+				if !same || w.Digests[i] != firstBatch.Digests[i] || w.SchedHash[i] != firstBatch.SchedHash[i] {
+					same = false
+					break
+				}
+			}
+			agg.selfcheck = fmt.Sprintf("runs 0..%d repeated in a second process (%s): event-log and verdict digests identical: %v", len(firstBatch.Digests)-1, envVariants[2].name, same)
+			if !same {
+				fmt.Println("vsim: NOTE: two processes running the same seed disagree: either the code under test is nondeterministic (that is property C17) or the simulator is; replays may not reproduce")
+			}
 		}
 	}
 
